@@ -155,7 +155,7 @@ GroupObjs == LET q == SetToSeq({<<i, k>> : i \in DOMAIN GroupBase, k \in 0 .. 6}
              IN  [j \in DOMAIN q |-> [base |-> GroupBase[q[j][1]], k |-> q[j][2]]]
 GroupRec(o) ==
     LET g == o.base.graph  spec == SizeSpec(g.n, o.k)
-        rs == SetToSeq(RGS(g.n, <<>>)) IN
+        rs == SetToSeq(AllRGS(g.n)) IN
     [family |-> "groups", obj |-> o.base, sizekind |-> spec.kind, sizes |-> SzJson(g.n, spec.sz),
      parts |-> rs,
      ok |-> [j \in DOMAIN rs |->
